@@ -182,6 +182,10 @@ func (h *Hist) genTx() *histTx {
 		if single {
 			d := p.Denoms[r.Intn(len(p.Denoms))]
 			maxIn = sdk.NewCoins(coin(d, h.amt(1, 50_000_000_000)))
+			if r.Intn(2) == 0 {
+				// a single-sided join may state a share amount too — up to a fifth of the pool, whatever the deposit is worth
+				shareOut = pool.TotalShares.Amount.Mul(h.amt(1, 200_000_000)).Quo(math.NewInt(1_000_000_000))
+			}
 		} else {
 			// all-asset join: ask for a fraction of the total shares, give generous max amounts
 			frac := h.amt(1, 200_000_000) // parts per 1e9
